@@ -5,7 +5,8 @@ Import ListNotations.
 Require Import Grist.Model.Deps Grist.Model.DepsSpec Grist.Model.DepsExec.
 Require Import Grist.Proofs.DepsSpec_proofs Grist.Proofs.Deps_closure_proofs Grist.Proofs.Deps_inval_proofs
                Grist.Proofs.Deps_order_proofs Grist.Proofs.Deps_rel_proofs Grist.Proofs.Deps_refine_proofs
-               Grist.Proofs.Deps_examples.
+               Grist.Proofs.Deps_examples Grist.Proofs.Deps_schema_proofs Grist.Proofs.Deps_eval_proofs.
+Require Grist.Model.DepsEval.
 Open Scope Z_scope.
 
 (* Main theorem.  From a consistent state, after ANY interleaving of edits (data, rows, schema: each
@@ -54,6 +55,57 @@ Theorem C05_data_edit_refines :
        guarded (to_state (upd v d x) f g') c d0 p /\ p (upd v d x d0) = p (v d0)) ->
     edit_ok guarded (to_state v f g) (fun c => cell_eqb c d) (to_state (upd v d x) f g').
 Proof. exact data_edit_ok. Qed.
+
+(* schema edit (formulas of column n change) + invalidate_deps(n, ALL_ROWS, include_self), which clears the
+   column's dependencies in the middle of the walk, is an edit the kernel accepts *)
+Theorem C05_schema_edit_refines :
+  forall (guarded : state -> cell -> cell -> (Z -> Z) -> Prop) fuel v f f' g n g',
+    owner_ok (g_edges g) ->
+    (forall e, In e (g_edges g) -> no_single (e_rel e) = true) ->
+    (forall c, fst c <> n -> f' c = f c) ->
+    (is_all (g_map g n) = true -> forall c, fst c = n -> f' c <> None -> f c <> None) ->
+    invalidate_deps fuel g n AllRows true = Some g' ->
+    (forall c d0 p, guarded (to_state v f g) c d0 p -> guarded (to_state v f' g') c d0 p) ->
+    edit_ok guarded (to_state v f g)
+            (fun c => Z.eqb (fst c) n && (Deps_schema_proofs.is_some (f c) || Deps_schema_proofs.is_some (f' c)))
+            (to_state v f' g').
+Proof. exact Deps_schema_proofs.schema_edit_ok. Qed.
+
+(* one evaluation step of the executable model (reset_dependencies for the row, run, add_edge per read,
+   lookup registrations, row leaves recompute_map) is a step the kernel accepts, for formulas all of whose
+   reads are covered eagerly; the coverage hypothesis is what the monitor checks on the implementation *)
+Theorem C05_eval_step_refines_partial :
+  forall v f g c t lks l,
+    f c = Some t -> g_map g (fst c) = Some (Rows l) -> in_map (g_map g) c = true ->
+    Forall (fun a => f (acell a) <> None -> in_map (g_map g) (acell a) = false) (trace v t) ->
+    owner_ok (g_edges g) -> (forall e, In e (g_edges g) -> DepsEval.head_look (e_rel e) = true) ->
+    Forall (fun a => covers (g_rel (snd (DepsEval.eval_exec v g c t lks))) (snd (fst a)) (snd (acell a)) (snd c) = true)
+           (trace v t) ->
+    eval_ok Deps_eval_proofs.noguard (to_state v f g) c t
+            (to_state (fst (DepsEval.eval_exec v g c t lks)) f (snd (DepsEval.eval_exec v g c t lks))).
+Proof. exact Deps_eval_proofs.eval_exec_ok. Qed.
+
+(* NOT PROVED (kept as a statement): the same with the lazily tracked lookup reads.  [guardedL]: the reader
+   observes "key of the lookup-map cell = k" and (row, k) is registered in the lookup relation.  Missing: the
+   executable model of the evaluation of a lookup-map cell with its post-invalidation
+   (invalidate_affected_keys + closure) and the proof that it meets eval_ok.v_guard; the pieces are
+   C05_lookup_guard_sound and C05_reset_rows_keeps_other_rows. *)
+Definition guardedL (s : state) (c d : cell) (p : Z -> Z) : Prop :=
+  exists k, (forall z, p z = if Z.eqb z k then 1 else 0) /\ In (snd c, k) (lkrows (rst s) (fst d) (fst c)).
+
+Definition C05_eval_step_refines_statement : Prop :=
+  forall v f g c t lks l,
+    f c = Some t -> g_map g (fst c) = Some (Rows l) -> in_map (g_map g) c = true ->
+    Forall (fun a => f (acell a) <> None -> in_map (g_map g) (acell a) = false) (trace v t) ->
+    owner_ok (g_edges g) -> (forall e, In e (g_edges g) -> DepsEval.head_look (e_rel e) = true) ->
+    (forall x p, ~ guardedL (to_state v f g) x c p) ->
+    Forall (fun a =>
+              covers (g_rel (snd (DepsEval.eval_exec v g c t lks))) (snd (fst a)) (snd (acell a)) (snd c) = true \/
+              guardedL (to_state (fst (DepsEval.eval_exec v g c t lks)) f (snd (DepsEval.eval_exec v g c t lks)))
+                       c (acell a) (snd a))
+           (trace v t) ->
+    eval_ok guardedL (to_state v f g) c t
+            (to_state (fst (DepsEval.eval_exec v g c t lks)) f (snd (DepsEval.eval_exec v g c t lks))).
 
 (* Relation soundness *)
 Theorem C05_reference_relation_sound :
